@@ -229,7 +229,7 @@ func (d *discharger) one(u *unit, o *oblig, extra []string) {
 		res, name, _, secs := d.race(ctx, solvers[:2], gf, d.timeoutMs)
 		o.secs += secs
 		if res == "unsat" {
-			os.Remove(gf)
+			removeQ(gf)
 			o.res, o.solver, o.ground, o.qsize = "unsat", name, true, len(gq)
 			done()
 			return
@@ -252,7 +252,7 @@ func (d *discharger) one(u *unit, o *oblig, extra []string) {
 		}
 	}
 	if res == "unsat" {
-		os.Remove(file)
+		removeQ(file)
 	}
 	done()
 }
@@ -284,4 +284,12 @@ func (d *discharger) all(jobs []job) {
 	}
 	close(ch)
 	wg.Wait()
+}
+
+var keepAll bool
+
+func removeQ(f string) {
+	if !keepAll {
+		os.Remove(f)
+	}
 }
